@@ -26,6 +26,7 @@ HARNESSES = {
         bound='slice length 0..=40, start misalignment 0..=7 (loop-free; logic depends on length and alignment only)'),
     'k_ref_from_slice': dict(COMMON, kind='bounded', functions=['DynSizedStructure::ref_from_slice', 'ref_from_bytes', 'header', 'payload'],
         bound='slice length 0..=32, start offset 0..=7, all byte contents, declared size any u32'),
+    'k_canary_must_fail': dict(COMMON, kind='canary', functions=['(vacuity guard: must fail)'], bound='-', known_failing=True),
     'k_dyn_layout': dict(COMMON, kind='bounded', functions=['DynSizedStructure layout (size_of_val, field offsets)'],
         bound='payload metadata 0..=32'),
 }
